@@ -152,6 +152,8 @@ type Frame struct {
 	visits  map[int]int
 	defers  []deferred
 	cutSeen map[int]map[int]*Term // loop header index -> reader positions at first arrival
+	retry   bool                  // on return the caller executes its call instruction again (Stringer calls made on behalf of a formatting stub)
+	touch   map[ssa.Instruction]int // formatting call -> next variadic argument whose String / Error method is to be run
 }
 
 type deferred struct {
@@ -258,6 +260,12 @@ func (st *State) clone() *State {
 			nf.visits[k] = v
 		}
 		nf.defers = append([]deferred(nil), f.defers...)
+		if f.touch != nil {
+			nf.touch = map[ssa.Instruction]int{}
+			for k, v := range f.touch {
+				nf.touch[k] = v
+			}
+		}
 		if f.cutSeen != nil {
 			nf.cutSeen = map[int]map[int]*Term{}
 			for k, v := range f.cutSeen {
